@@ -28,7 +28,7 @@ python3 - <<'PY'
 import json,glob
 rows=[json.load(open(f)) for f in sorted(glob.glob('/verif/seeded/*/result.json'))]
 out=["# Seeded changes vs checks (quick tier of the seed's own property; scratch worktree with the patch applied)","",
-     f"{sum(r['verdict']=='caught' for r in rows)} of {len(rows)} caught.","","| seed | property | verdict | first class reported | /verif commit |","|---|---|---|---|---|"]
+     f"{sum(r['verdict'].startswith('caught') for r in rows)} of {len(rows)} caught.","","| seed | property | verdict | first class reported | /verif commit |","|---|---|---|---|---|"]
 for r in rows:
     cls = r['first_class'].replace('|', '/')
     out.append("| %s | %s | %s | %s | %s |" % (r['seed'], r['property'], r['verdict'], cls, r['verif_commit']))
